@@ -40,6 +40,7 @@ class C14(SCheck):
         existing = r.random() < 0.35
         if r.random() < 0.25:
             flags["n"] = True
+        gen.swarm_flags(r, flags, allow=("ownership", "no_perms", "no_timestamps", "fsync"), p=0.15)
         if sole:
             srcs = [specials[0]]
             dest = "out"
